@@ -83,6 +83,7 @@ theorem setsim_core_wide (hm : SetMeasure m) (hv : validateJoin m.name a t = .ok
   have hsrc := candset_rows hcall am nj cpu₁ C hC
   have hvM := stage2_valid m.name a t l r C nj₂ hv hop6 c3 c4 (some t) (Or.inl rfl)
   have hM := matcher_iff (stage2Args a C nj₂) (some t) toks sim cpu₂ C l r P hvM c1 c2 hsrc hClen h2 ls rs hls hrs hpl hpr
+    (fun _ => ⟨(hcall.bodyOK hC).lstr, (hcall.bodyOK hC).rstr⟩)
   set A := tokensOf (toks true) l a.lAttr ls with hA
   set B := tokensOf (toks true) r a.rAttr rs with hB
   have hAn : A.Nodup := hs.nodup _
